@@ -52,6 +52,79 @@ theorem c02_trigger_count_preserved {cfg : RichCfg} {dctx : DecCtx} {ectx : EncC
     out.length = ts.length := by
   rw [mapR_length he, mapR_length hd]
 
+/-- **every location keeps what the game reads of it, for EVERY 255-slot table on which the save
+succeeds** (not only editor-form ones): slot `i` of the output is empty exactly when slot `i` of the
+input is; otherwise it holds the same four coordinates, the elevation word restricted to the bits the
+format defines, and a name id that resolves to the SAME TEXT as the input's name id (the id itself may
+change when several ids share the text) -/
+theorem c02_mrgn_values_kept (cfg : RichCfg) (ctx : EncCtx) (recs out : List (List Nat))
+    (hlen : recs.length = cfg.mrgnSlots)
+    (h : encodeMrgn cfg ctx (decodeMrgn cfg ctx.texts recs) = .ok out)
+    (i : Nat) (hi : i < recs.length) :
+    (recs[i].all (· == 0) = true → out.getD i [] = [0, 0, 0, 0, 0, 0]) ∧
+    (recs[i].all (· == 0) = false → ∃ sid,
+      idByStr ctx.texts (strById ctx.texts (recs[i].getD 4 0)) = .ok sid ∧
+      strById ctx.texts sid = strById ctx.texts (recs[i].getD 4 0) ∧
+      out.getD i [] = [recs[i].getD 0 0, recs[i].getD 1 0, recs[i].getD 2 0, recs[i].getD 3 0, sid,
+        elevationEncode cfg (elevationDecode cfg (recs[i].getD 5 0))]) := by
+  unfold encodeMrgn at h
+  obtain ⟨hl, hall⟩ := mapR_ok h
+  have hir : i < (List.range cfg.mrgnSlots).length := by simpa [hlen] using hi
+  have hio : i < out.length := by rw [hl]; exact hir
+  have hget : out.getD i [] = out[i] := by simp [List.getD, hio]
+  have hk := hall i hir hio
+  simp only [List.getElem_range] at hk
+  rw [find?_reverse_of_unique _ _ (decodeMrgn_unique cfg ctx.texts recs (i + 1))] at hk
+  have hf := decodeMrgn_go_find cfg ctx.texts recs 0 i hi
+  simp only [Nat.zero_add] at hf
+  unfold decodeMrgn at hk
+  rw [hf] at hk
+  constructor
+  · intro hz
+    simp only [hz, if_true] at hk
+    rw [hget]; simpa using hk.symm
+  · intro hz
+    simp only [hz, Bool.false_eq_true, ↓reduceIte] at hk
+    unfold encodeLoc mkLoc at hk
+    split at hk
+    · simp at hk
+    · rename_i sid hs
+      simp only at hs
+      obtain ⟨id', h1, h2⟩ := str_reference_preserved ctx.texts (recs[i].getD 4 0)
+      have : id' = sid := by rw [h1] at hs; cases hs; rfl
+      subst this
+      exact ⟨id', h1, h2, by rw [hget]; simpa using hk.symm⟩
+
+/-- **every unit-property slot keeps what the game reads of it, for EVERY 64-record table**: slot `i` of
+the output is the placeholder exactly when the input record holds nothing but (possibly) an owner byte;
+otherwise it holds the same percentages, resource amount, hangar count and padding, the owner byte 0
+(the format says it is always 0), and the three flag words restricted to the bits the format defines -/
+theorem c02_uprp_values_kept_any (cfg : RichCfg) (recs : List (List Nat))
+    (hlen : recs.length = cfg.cuwpSlots)
+    (h6 : ∀ n, ((cfg.flagsOf "cuwp_unit").decode n).length = 6)
+    (i : Nat) (hi : i < recs.length) :
+    (encodeUprp cfg (decodeUprp cfg recs)).getD i [] =
+      if cuwpRecUnused recs[i] then List.replicate 10 0
+      else [(cfg.flagsOf "cuwp_valid_special").encode ((cfg.flagsOf "cuwp_valid_special").decode (recs[i].getD 0 0)),
+            (cfg.flagsOf "cuwp_valid_unit").encode ((cfg.flagsOf "cuwp_valid_unit").decode (recs[i].getD 1 0)),
+            0, recs[i].getD 3 0, recs[i].getD 4 0, recs[i].getD 5 0, recs[i].getD 6 0, recs[i].getD 7 0,
+            (cfg.flagsOf "cuwp_unit").encode ((cfg.flagsOf "cuwp_unit").decode (recs[i].getD 8 0)),
+            recs[i].getD 9 0] := by
+  unfold encodeUprp
+  rw [← hlen]
+  have hg : ∀ (f : Nat → List Nat), ((List.range recs.length).map f).getD i [] = f i := by
+    intro f; simp [List.getD, hi]
+  rw [hg]
+  rw [find?_reverse_of_unique _ _ (decodeUprp_unique cfg recs (i + 1))]
+  have hf := decodeUprp_go_find cfg recs 0 i hi
+  simp only [Nat.zero_add] at hf
+  unfold decodeUprp
+  rw [hf]
+  by_cases hz : cuwpRecUnused recs[i] = true
+  · simp only [hz, if_true]
+  · simp only [hz, Bool.false_eq_true, ↓reduceIte]
+    simp only [encodeCuwp, decodeCuwp, take5_getD5 _ (h6 _)]
+
 /-- **the location table, unit-property table and sound table are rewritten exactly** when they are
 in editor form (C03 section identities): restated here because "every section keeps its size, every
 numeric setting its value" is the C02 reading of the same facts -/
